@@ -79,6 +79,8 @@ pub fn topic_filter() -> BoxedStrategy<String> {
         1 => Just("+/a".to_string()),
         1 => Just("a/+/b/#".to_string()),
         1 => Just("$SYS/x".to_string()),
+        // shared subscriptions (v5.0 §4.8.2): valid ShareName + filter
+        2 => proptest::sample::select(vec!["$share/g/a/b", "$share/g/#", "$share/grp/+/x", "$share/g/a"]).prop_map(|s| s.to_string()),
     ]
     .boxed()
 }
